@@ -915,6 +915,10 @@ func exhaustiveDeep(g *core.G) {
 					if !seen[line] {
 						seen[line] = true
 						g.Emit(line)
+						if len(seen)%5 == 0 {
+							// the same deep chain with a member function per level, function overrides and annotations
+							g.Emit("@objd " + strings.TrimPrefix(line, "obj "))
+						}
 					}
 				}
 			}
